@@ -26,36 +26,36 @@ const (
 type Flavor int
 
 const (
-	FlSliceStr Flavor = iota // []string
-	FlSliceIface             // []interface{}
-	FlArray                  // [n]string
-	FlPtrSlice               // *[]string
-	FlChan                   // closed buffered chan string (fresh per execution)
-	FlRangerIdx              // custom Ranger providing an index
-	FlRangerNoIdx            // custom Ranger without index
-	FlInts                   // ints(a,b): only as range subject expression
-	FlMapStr                 // map[string]string (ranged as entries)
-	FlNilSlice               // []string(nil)
+	FlSliceStr    Flavor = iota // []string
+	FlSliceIface                // []interface{}
+	FlArray                     // [n]string
+	FlPtrSlice                  // *[]string
+	FlChan                      // closed buffered chan string (fresh per execution)
+	FlRangerIdx                 // custom Ranger providing an index
+	FlRangerNoIdx               // custom Ranger without index
+	FlInts                      // ints(a,b): only as range subject expression
+	FlMapStr                    // map[string]string (ranged as entries)
+	FlNilSlice                  // []string(nil)
 	nFlavors
 )
 
 type Value struct {
-	K  Kind
-	B  bool
-	I  int
-	S  string
-	L  []Value // list elements (for FlMapStr: values, keys in Keys)
+	K    Kind
+	B    bool
+	I    int
+	S    string
+	L    []Value // list elements (for FlMapStr: values, keys in Keys)
 	Keys []string
-	M  map[string]Value // KMap: string-keyed record (realised as map[string]interface{})
-	Fl Flavor
+	M    map[string]Value // KMap: string-keyed record (realised as map[string]interface{})
+	Fl   Flavor
 }
 
-func Str(s string) Value  { return Value{K: KStr, S: s} }
-func Int(i int) Value     { return Value{K: KInt, I: i} }
-func Bool(b bool) Value   { return Value{K: KBool, B: b} }
-func Nil() Value          { return Value{} }
+func Str(s string) Value                { return Value{K: KStr, S: s} }
+func Int(i int) Value                   { return Value{K: KInt, I: i} }
+func Bool(b bool) Value                 { return Value{K: KBool, B: b} }
+func Nil() Value                        { return Value{} }
 func List(fl Flavor, vs ...Value) Value { return Value{K: KList, Fl: fl, L: vs} }
-func Rec(m map[string]Value) Value { return Value{K: KMap, M: m} }
+func Rec(m map[string]Value) Value      { return Value{K: KMap, M: m} }
 
 // Render is the printed form of a value as an action renders it (escaping aside).
 func (v Value) Render() string {
@@ -113,18 +113,28 @@ func (v Value) IsNil() bool { return v.K == KNil || (v.K == KList && v.Fl == FlN
 
 type Expr interface{ src() string }
 
-type Lit struct{ V Value }     // string / int / bool / nil literal
-type Var struct{ Name string } // identifier
-type Dot struct{}              // .
-type DotField struct{ Name string }           // .name
-type VarField struct{ Var, Name string }      // x.name
-type Isset struct{ Name string }              // isset(x)
-type IssetDot struct{}                        // isset(.)  -- not used
-type Probe struct{ ID string; Arg Expr }      // probe("id") or probe("id", arg): logs, evaluates to the id token
-type Eq struct{ A, B Expr }                   // a == b
-type Ints struct{ From, To int }              // ints(a,b): range subject only
-type Exec struct{ Name string; Ctx Expr }     // exec("name"[, ctx])
-type IncludeIfExists struct{ Name string; Ctx Expr }
+type Lit struct{ V Value }               // string / int / bool / nil literal
+type Var struct{ Name string }           // identifier
+type Dot struct{}                        // .
+type DotField struct{ Name string }      // .name
+type VarField struct{ Var, Name string } // x.name
+type Isset struct{ Name string }         // isset(x)
+type IssetDot struct{}                   // isset(.)  -- not used
+type Probe struct {
+	ID  string
+	Arg Expr
+}                                // probe("id") or probe("id", arg): logs, evaluates to the id token
+type Eq struct{ A, B Expr }      // a == b
+type Ints struct{ From, To int } // ints(a,b): range subject only
+type Exec struct {
+	Name string
+	Ctx  Expr
+} // exec("name"[, ctx])
+type IncludeIfExists struct {
+	Name string
+	Ctx  Expr
+}
+
 // Opaque is an expression the model does not interpret: its source and its outcome are given.
 type Opaque struct {
 	Src   string
@@ -192,12 +202,12 @@ type Set struct { // a, b = e1, e2
 	pos
 }
 type If struct {
-	LetName        string // if LetName := LetE; Cond
-	LetE           Expr
-	Cond           Expr
-	Then, Else     []Node
-	HasElse        bool
-	ElseIf         bool // Else is a single If printed as {{else if ..}}
+	LetName    string // if LetName := LetE; Cond
+	LetE       Expr
+	Cond       Expr
+	Then, Else []Node
+	HasElse    bool
+	ElseIf     bool // Else is a single If printed as {{else if ..}}
 	pos
 }
 type Range struct {
